@@ -204,8 +204,42 @@ def consume_before_await(mod, cls, fname):
     return ob(name, 'proved', 'gate', t0)
 
 
+def cluster_lemmas(seed):
+    """C07 composition over abstract views, for any number of hosts: if every session id lives on one host (freshness of
+    ids) and every host applies a message to its own membership exactly once (the per-function contracts), then an emit
+    reaches exactly the clients a single server holding all memberships would reach, each from exactly one host."""
+    out = []
+    H = z3.DeclareSort('Host')
+    mem = z3.Function('member_on', H, V, V, V, z3.BoolSort())          # member_h(ns, room, sid)
+    skip = z3.Function('skipped', V, z3.BoolSort())
+    h, h2 = z3.Consts('h h2', H)
+    ns, room, s, r2 = z3.Consts('ns room s r2', V)
+    own_once = z3.ForAll([h, h2, ns, s, r2, room], z3.Implies(z3.And(mem(h, ns, NONE, s), mem(h2, r2, NONE, s)), h == h2))     # I3 + freshness, cluster-wide
+    i1 = z3.ForAll([h, ns, room, s], z3.Implies(mem(h, ns, room, s), mem(h, ns, NONE, s)))                                   # I1 on every host
+    single = lambda n_, ro_, s_: z3.Exists([h], mem(h, n_, ro_, s_))                                                          # the reference single server
+    delivers = lambda h_, n_, ro_, s_: z3.And(mem(h_, n_, ro_, s_), z3.Not(skip(s_)))                                        # _handle_emit on host h (Manager.emit contract)
+    lemmas = {
+        'cluster.emit-reaches-exactly-the-single-server-recipients': z3.ForAll([ns, room, s], z3.Exists([h], delivers(h, ns, room, s)) == z3.And(single(ns, room, s), z3.Not(skip(s)))),
+        'cluster.emit-delivered-by-exactly-one-host': z3.ForAll([ns, room, s, h, h2], z3.Implies(z3.And(delivers(h, ns, room, s), delivers(h2, ns, room, s)), h == h2)),
+        'cluster.room-change-applied-by-exactly-the-owning-host': z3.ForAll([ns, s, h, h2], z3.Implies(z3.And(mem(h, ns, NONE, s), mem(h2, ns, NONE, s)), h == h2)),
+    }
+    for name, goal in lemmas.items():
+        t0 = time.time()
+        r = smt.prove([own_once, i1], goal, timeout_ms=10000, seed=seed)
+        out.append(ob('lemma/' + name, r['status'], 'lemma', t0, backend=r['backend'], function='(composition lemma over abstract views)'))
+    # canary: without the ownership assumption the at-most-once lemma must not be provable
+    t0 = time.time()
+    r = smt.refute_qf([], lemmas['cluster.emit-delivered-by-exactly-one-host'], seed=seed)
+    r2_ = smt.prove([i1], lemmas['cluster.emit-delivered-by-exactly-one-host'], timeout_ms=4000, seed=seed, quick_only=True)
+    out.append(ob('lemma/cluster.canary(at-most-once needs one-host-per-sid)', 'proved' if r2_['status'] != 'proved' else 'vacuous', 'canary', t0, backend='z3',
+                  function='(composition lemma over abstract views)'))
+    return out
+
+
 def run(prop, tier, seed):
     out = []
+    if prop == 'C07':
+        out += cluster_lemmas(seed)
     if prop == 'C06':
         out.append(consume_before_await('async_manager', 'AsyncManager', 'trigger_callback'))
     if prop == 'C09':
